@@ -41,10 +41,16 @@ func cmdAdsMesh(args []string) {
 	seed := fs.Int64("seed", 1, "seed")
 	scenarios := fs.Int("scenarios", 12, "scenarios")
 	par := fs.Int("par", 6, "parallel scenarios")
+	hookOut := fs.String("hooktrace", "", "raw hook events of all nodes")
 	_ = fs.Parse(args)
 	res := &Result{}
 	defer res.write(*out)
-	_ = trace.Install()
+	col := trace.Install()
+	defer func() {
+		if *hookOut != "" {
+			_ = trace.WriteNDJSON(*hookOut, col.Since(0))
+		}
+	}()
 	// race between an advertisement round and Close: advertisement rounds are slowed down through the public
 	// logger hook so that a Close can land between the listener snapshot and the sending of that service's ad
 	if viol, n, inconcl := runAdsChurn(*seed, *scenarios); inconcl != "" {
